@@ -93,6 +93,7 @@ func cmdVC(args []string) {
 	if err := e.cs.LoadSpecDir(filepath.Join(verifDir, "specs")); err != nil {
 		fmt.Println("specs:", err)
 	}
+	e.cs.LoadDir(filepath.Join(verifDir, "lemmas"), ".lem", false)
 	t0 := time.Now()
 	if err := e.Load(strings.Split(args[0], ",")); err != nil {
 		fmt.Println("load:", err)
@@ -141,7 +142,11 @@ func cmdVC(args []string) {
 				fmt.Printf("  note: %s\n", n)
 			}
 		}
-		rs := solveAll(obls, scratch, 10, 16)
+		to := 10
+		if s := os.Getenv("GOVC_TIMEOUT"); s != "" {
+			fmt.Sscanf(s, "%d", &to)
+		}
+		rs := solveAll(obls, scratch, to, 16)
 		for _, r := range rs {
 			total++
 			if r.OK {
@@ -149,8 +154,8 @@ func cmdVC(args []string) {
 			}
 			if !r.OK || verbose {
 				fmt.Printf("  %-6s %s  [%s %.2fs] %s\n", map[bool]string{true: "ok", false: "FAIL"}[r.OK], r.Obl.Name, r.Res.Status, r.Res.TimeS, r.Obl.Src)
-				if !r.OK && verbose {
-					fmt.Println(indent(modelSummary(r), "      "))
+				if !r.OK && verbose && r.Res.Status == "sat" {
+					fmt.Printf("      model: %v\n", e.extractModel(r, scratch))
 				}
 			}
 		}
